@@ -201,8 +201,20 @@ def judge(case, per_cell):
     ref_val = None
     for fmt, items in texts_by_fmt.items():
         first_key, first = items[0]
+        # same construction history, other hash seed: the surrounding file is identical -> identical bytes
+        by_variant = {}
+        for (hs, variant), t in items:
+            by_variant.setdefault(variant, []).append((hs, t))
+        for variant, lst in by_variant.items():
+            for hs, t in lst[1:]:
+                if t != lst[0][1]:
+                    raise Violation("text-depends-on-hash-seed-or-history",
+                                    f"formatter={fmt} history={variant}: PYTHONHASHSEED={lst[0][0]} wrote\n  {lst[0][1]}\n"
+                                    f"PYTHONHASHSEED={hs} wrote\n  {t}\nvalue: {gv.render(case['value'])}")
+        # other construction history: the observed expression in the file is spelled differently (the line
+        # is longer), so the formatter may wrap the argument differently; the tokens must be identical
         for key, t in items[1:]:
-            if t != first:
+            if "".join(t.split()) != "".join(first.split()):
                 raise Violation("text-depends-on-hash-seed-or-history",
                                 f"formatter={fmt}: (PYTHONHASHSEED, history)={first_key} wrote\n  {first}\n{key} wrote\n  {t}\n"
                                 f"value: {gv.render(case['value'])}")
